@@ -33,6 +33,12 @@ CHECKS['C20'] = ('model_checking',
     'datetime/calendar shim (validated, injectivity proved), abstract numerals for bin/oct/hex, float->int guard < 2^62; quick tier: 8 of 24 hours, ROMAN n <= 447; cross conversions through schedula outside. Known finding C20-date-rollover-feb1900 excluded by predicate. ' + TB,
     'DESIGN.md §3 C20')
 
+CHECKS['C18'] = ('model_checking',
+    'symbolic execution of the real parser with CrossHair/z3 over selector-chosen token sequences; z3 string/regex queries over the live token patterns; concolic run of Number.compile on a symbolic literal',
+    'Bounded symbolic checking: every token sequence of length <= 3 (quick) / 4 (thorough) over a 20-word vocabulary and every single-token edit of 6 valid formulas makes the real Parser().ast return a formula or raise FormulaError - nothing else - and the statement\'s syntactic rejection classes are rejected; every string of the numeric-literal language read from the live regex is converted without exception (unbounded alphabet, length <= 12); each token pattern consumes at least one character.',
+    'Token spellings are selectors (bounded exhaustive); arbitrary character strings outside; numeric VALUE semantics of int()/float() trusted. ' + TB,
+    'DESIGN.md §3 C18')
+
 NA = {
     'C15': 'the dependency closure is computed over openpyxl worksheets read from .xlsx files while mutating the schedula dispatcher; neither can be given a symbolic state (DESIGN §4)',
     'C16': 'placement is done by openpyxl range iteration zipped with np.ravel and compared by re-reading files: I/O and third-party C code, no encodable kernel (DESIGN §4)',
